@@ -500,7 +500,15 @@ def build_prog(case):
             return None
         cont_dump = "map"
     elif ob in ("range-heap", "range-stack"):
-        if ob == "range-heap":
+        if ob == "range-heap" and case.get("pos", 0) % 2 == 1:
+            # the Range received its value by assignment from another one that is deleted at once: the cursor object
+            # it hands out must be its own
+            P.add("new %%4 heap t:Range i:%d" % (n + 2))
+            P.add("new %0 heap t:Range i:1")
+            P.add("assign %0 %4", lambda o: None if o.startswith("ok") else "assign failed " + o)
+            P.add("del %4")
+            P.add("zero %4")
+        elif ob == "range-heap":
             P.add("new %%0 heap t:Range i:%d" % (n + 2))
         else:
             P.add("stk %%0 range i:%d" % (n + 2))
